@@ -11,6 +11,7 @@ import LinVerif.Lemmas.C20SeekList
 import LinVerif.Lemmas.C20Merge
 import LinVerif.Lemmas.C20Bits
 import LinVerif.Lemmas.C20Louds
+import LinVerif.Lemmas.C20LoudsGet
 import LinVerif.Model.Louds
 import LinVerif.Model.TrieBucket
 import LinVerif.Generated.C20
@@ -308,10 +309,11 @@ level order (node ids) and `flatItems t` the labels in vector order,
 * at a label with child, `childNodeID(pos)` (rank.go's table-driven `Rank(hasChild, pos)`) is the
   level-order index of exactly that child node;
 * at a label without child, `valuePos(pos)` indexes exactly that label's value.
-What is NOT proved (tied by the array-level correspondence instead): the label search inside
-`[firstLabelPos, firstLabelPos + nodeSize)`, the prefix/suffix path lookup through the
-hasPrefix/hasSuffix rank vectors, and the induction along the key that composes these into
-`loudsGet (encode t) = getNode t`; the iterator's explicit-stack stepping. -/
+These compose (with the label scan, `nodeSize`, and the prefix/suffix lookup through the
+hasPrefix/hasSuffix rank vectors) into `louds_get_refines_tree` below. What is NOT proved (tied by
+the array-level correspondence instead): ordered iteration / `Seek` over the vectors (the
+iterator's explicit-stack stepping `Next`/`Prev`/`setAt`; `loudsIter (encode t) = iter t`) and the
+byte layout of `Write`/`UnmarshalBinary`. -/
 theorem louds_refines_tree_partial {kvs : List KV} {t : Node} (h : Buildable kvs) (ht : build kvs = some t) :
     (∀ n, n < (bfs t).length → firstLabelPos (encode t) n = offset t n) ∧
     (∀ pos l c, (flatItems t)[pos]? = some (.child l c) → (bfs t)[childNodeID (encode t) pos]? = some c) ∧
@@ -322,6 +324,26 @@ theorem louds_refines_tree_partial {kvs : List KV} {t : Node} (h : Buildable kvs
   exact ⟨fun n hn => firstLabelPos_eq_offset hwf n hn,
     fun pos l c hp => childNodeID_eq_bfs_index pos l c hp,
     fun pos l suf v hp => valuePos_eq_value_index pos l suf v hp⟩
+
+/-- **LOUDS navigation = tree navigation for exact lookup**: `trie.Get` run over the flat vectors
+of the encoding (table-driven `Select`/`Rank`, `DistanceToNextSetBit`, label scan with the
+terminator skip, prefix/suffix lookup, `valuePos`) returns exactly what `trie.Get` on the tree
+returns — for every buildable key list, every probe key and both variants of the terminator test -/
+theorem louds_get_refines_tree {kvs : List KV} {t : Node} (eon : Bool) (h : Buildable kvs)
+    (ht : build kvs = some t) (key : Key) : loudsGet eon (encode t) key = getNode eon t key := by
+  obtain ⟨t', ht', _, hwf, _⟩ := build_spec h
+  rw [ht] at ht'; cases ht'
+  unfold loudsGet
+  apply lget_eq_getNode eon hwf
+  · rw [bfs_eq t]; rfl
+  · omega
+
+/-- … hence the encoded dictionary answers exact lookups like the sorted map (`_partial` as
+`get_eq_lookup_partial`: key set {"\xff"} excluded for the terminator test of today's code) -/
+theorem louds_get_eq_lookup_partial {kvs : List KV} {t : Node} (eon : Bool) (h : Buildable kvs)
+    (ht : build kvs = some t) (hff : eon = false → ∀ v, kvs ≠ [([255], v)]) (key : Key) :
+    loudsGet eon (encode t) key = lookup key kvs := by
+  rw [louds_get_refines_tree eon h ht key, get_eq_lookup_partial eon h ht hff key]
 
 /-- the encoded label / hasChild / louds / value vectors are the per-node rows concatenated in
 level order (what `trie.Init` / `bitVector.Init` do with the builder's levels) -/
